@@ -95,6 +95,38 @@ theorem C13_reorder_types_output (cfg : Gn.Config) (p : Pj.Project) (path : Str)
     Gn.generate cfg (An.analyze { p with files := p.files.map (An.withItems path items') }) = Gn.generate cfg (An.analyze p) := by
   rw [An.analyze_reorder_types p path items' h]
 
+/-- **C13, moving serde types between files, on the whole model**: let the functions of every file stay where they are and
+    let the serde items be redistributed among the processed files in any way — each still present somewhere, the indexed
+    names the same multiset as before — in a project that indexes every type name once.  Then the analysis is unchanged
+    (same commands and events, the same set of declarations with the same content), and so is every generated file. -/
+theorem C13_redistribute_types_analysis (p : Pj.Project) (g : Pj.File → Pj.File)
+    (hpath : ∀ f ∈ p.files, (g f).relPath = f.relPath ∧ (g f).parses = f.parses)
+    (hfn : ∀ f ∈ An.processed p, An.fnItems (g f).items = An.fnItems f.items)
+    (hperm : ((An.processed p).map g |>.flatMap fun f => An.fileDefs f.items).Perm ((An.processed p).flatMap fun f => An.fileDefs f.items))
+    (huniq : ((An.processed p).flatMap fun f => An.fileDefs f.items).Nodup)
+    (hkeep : ∀ f ∈ An.processed p, ∀ it ∈ f.items, An.inclName it ≠ none → ∃ f' ∈ An.processed p, it ∈ (g f').items) :
+    An.analyze { p with files := p.files.map g } = An.analyze p :=
+  An.analyze_redistribute_types p g hpath hfn hperm huniq hkeep
+
+theorem C13_redistribute_types_output (cfg : Gn.Config) (p : Pj.Project) (g : Pj.File → Pj.File)
+    (hpath : ∀ f ∈ p.files, (g f).relPath = f.relPath ∧ (g f).parses = f.parses)
+    (hfn : ∀ f ∈ An.processed p, An.fnItems (g f).items = An.fnItems f.items)
+    (hperm : ((An.processed p).map g |>.flatMap fun f => An.fileDefs f.items).Perm ((An.processed p).flatMap fun f => An.fileDefs f.items))
+    (huniq : ((An.processed p).flatMap fun f => An.fileDefs f.items).Nodup)
+    (hkeep : ∀ f ∈ An.processed p, ∀ it ∈ f.items, An.inclName it ≠ none → ∃ f' ∈ An.processed p, it ∈ (g f').items) :
+    Gn.generate cfg (An.analyze { p with files := p.files.map g }) = Gn.generate cfg (An.analyze p) := by
+  rw [An.analyze_redistribute_types p g hpath hfn hperm huniq hkeep]
+
+/-- what a move between files can change at all: the analysis depends on the files only through the commands and the
+    emissions in processing order, the number of indexed definitions and the project-wide lookup of type names -/
+theorem C13_moving_depends_on_lookup (p₁ p₂ : Pj.Project)
+    (hc : (An.processed p₁).flatMap (fun f => An.fileCommands f.relPath f.items) = (An.processed p₂).flatMap (fun f => An.fileCommands f.relPath f.items))
+    (he : (An.processed p₁).flatMap (fun f => An.fileEvents f.relPath f.items) = (An.processed p₂).flatMap (fun f => An.fileEvents f.relPath f.items))
+    (hn : ((An.processed p₁).flatMap fun f => An.fileDefs f.items).length = ((An.processed p₂).flatMap fun f => An.fileDefs f.items).length)
+    (hl : ∀ n, An.lookupType (An.processed p₁) n = An.lookupType (An.processed p₂) n)
+    (hd : ∀ n, (An.defFile (An.processed p₁) n).isSome = (An.defFile (An.processed p₂) n).isSome) :
+    An.analyze p₁ = An.analyze p₂ := An.analyze_congr_lookup p₁ p₂ hc he hn hl hd
+
 /-- the analysis reads a file through four functions of its items only (what the insertion theorem rests on) -/
 theorem C13_analysis_reads_four_views (p : Pj.Project) (g : Pj.File → Pj.File) (h : ∀ f ∈ p.files, An.SameToAnalysis f (g f)) :
     An.analyze { p with files := p.files.map g } = An.analyze p := An.analyze_congr g p h
@@ -105,5 +137,36 @@ example (path : Str) (items : List Pj.Item) : An.inert path items .other = true 
 example (path : Str) (items : List Pj.Item) :
     An.inert path items (.struct { name := cl!"User", attrs := [], shape := .named, fields := [] }) = true := by
   simp [An.inert, An.shouldInclude]
+
+/-! non-vacuity of the redistribution theorem: a serde type moved from `a.rs` to `b.rs` meets all its hypotheses -/
+namespace Ex
+open An Pj
+def deriveAttr : Attr := { path := [cl!"derive"], isList := true, tokens := cl!"Serialize", metaTokens := cl!"derive (Serialize)" }
+def user : Item := .struct { name := cl!"User", attrs := [deriveAttr], shape := .named, fields := [] }
+def fa : File := { relPath := cl!"a.rs", parses := true, items := [user] }
+def fb : File := { relPath := cl!"b.rs", parses := true, items := [] }
+def proj : Project := { absRoot := cl!"/r", files := [fa, fb] }
+def move (f : File) : File :=
+  if f.relPath = cl!"a.rs" then { f with items := [] } else if f.relPath = cl!"b.rs" then { f with items := [user] } else f
+
+example : analyze { proj with files := proj.files.map move } = analyze proj := by
+  have ex_processed : processed proj = [fa, fb] := by rfl
+  apply C13_redistribute_types_analysis
+  · intro f hf
+    simp only [proj, List.mem_cons, List.not_mem_nil, or_false] at hf
+    rcases hf with rfl | rfl <;> exact ⟨by decide +kernel, by decide +kernel⟩
+  · rw [ex_processed]; intro f hf
+    simp only [List.mem_cons, List.not_mem_nil, or_false] at hf
+    rcases hf with rfl | rfl <;> rfl
+  · rw [ex_processed]; decide +kernel
+  · rw [ex_processed]; decide +kernel
+  · rw [ex_processed]; intro f hf it hit _
+    simp only [List.mem_cons, List.not_mem_nil, or_false] at hf
+    rcases hf with rfl | rfl
+    · simp only [fa, List.mem_cons, List.not_mem_nil, or_false] at hit
+      subst hit
+      exact ⟨fb, by simp, by simp [move, fb]⟩
+    · simp [fb] at hit
+end Ex
 
 end TG.C13
